@@ -6,6 +6,7 @@ import collections
 import copy
 
 import common as C
+import re_probes as RP
 import engine_common as E
 import engine_extract
 import replay_common as R
@@ -268,6 +269,7 @@ def run(ctx, model=True):
     for k, v in STATS.items():
         res.count(k, v)
     res.rule += " | C10: clear_checkpoint at varying positions (also followed by later checkpoints), try/finally around the plan body, one pause / suspension / deferred pause at EVERY later arrival index (sweeps) or several interruptions; judged = exactly one request accepted in state running after clear_checkpoint"
+    RP.add_to(res, ["second-call", "nonresumable-wrapper"])
     return res
 
 
@@ -276,4 +278,7 @@ def run_impl_only(ctx):
 
 
 def replay(ctx, data):
+    r = RP.replay(data)
+    if r is not None:
+        return r
     return E.replay_property(ctx, data, oracle)
